@@ -14,7 +14,7 @@ EXHAUSTIVE = True
 TECHNIQUE = 'Hypothesis-generated files x exhaustive truncation offsets, against an independent walk of the surviving bytes'
 RULE = ('VBS, 1014-blocked VBS and IPM files (1..12 records, lengths biased to 1004..1016 / 2020..2028 so prefixes and '
         'record ends straddle block edges) are generated; every truncation offset 0..len(file) of each is read with '
-        'VbsReader / IpmReader. Oracle: the reference walk of the surviving payload gives the complete records; the reader '
+        'VbsReader / IpmReader (and, for VBS data, vbs_bytes_to_list). Oracle: the reference walk of the surviving payload gives the complete records; the reader '
         'must yield exactly those, in order, then end or raise MciIpmDataError. Non-trivial = a cut strictly inside the '
         'file; distinct by (file digest, offset).')
 ASSUMPTIONS = ['either ending (clean end or MciIpmDataError) is accepted at every offset',
@@ -65,6 +65,19 @@ def check_cut(data, cut, blocked, ipm_encoding=None):
         return 'invented-records:' + form, f'{form} file cut at {cut}: more than {len(want)} records delivered'
     if ipm_encoding:
         want = [iso8583.loads(r, encoding=ipm_encoding) for r in want]
+    if not ipm_encoding and cut % 2 == 0:
+        # the list convenience function is a reader too: it may raise the library error, otherwise it must return exactly the
+        # complete records (called with the default arguments when the data is unblocked)
+        for kw in ([{}, {'blocked': False}] if not blocked else [{'blocked': True}]):
+            try:
+                lst = mciipm.vbs_bytes_to_list(part, **kw)
+            except mciipm.MciIpmDataError:
+                continue
+            except Exception as ex:  # noqa
+                return exc_sig('exception:vbs_bytes_to_list:' + form, ex), f'vbs_bytes_to_list({kw}) on a {form} file cut at {cut}: {ex!r}'
+            if lst != want:
+                return 'convenience-function-differs:' + form, (f'vbs_bytes_to_list({kw}) on a {form} file of {len(data)} bytes cut at {cut} returned '
+                                                                 f'{len(lst)} records (last {len(lst[-1]) if lst else 0} bytes), {len(want)} complete records survive')
     if got != want:
         kind = 'missing' if len(got) < len(want) else ('invented' if len(got) > len(want) else 'altered')
         return f'{kind}-records:{form}', (f'{form} file of {len(data)} bytes cut at {cut}: {len(want)} complete records survive, '
